@@ -11,6 +11,7 @@ from common import (Check, coq_eval, parse_defs, parse_nlist, cstr, clist, cbool
 
 HEAD = ('<?xml version="1.0"?>\n<repository version="1.2" xmlns="http://www.gtk.org/introspection/core/1.0" '
         'xmlns:c="http://www.gtk.org/introspection/c/1.0" xmlns:glib="http://www.gtk.org/introspection/glib/1.0">\n'
+        '<include name="D" version="1.0"/>\n'
         '<namespace name="T" version="1.0" shared-library="" c:identifier-prefixes="T,Tx" c:symbol-prefixes="t">\n')
 
 
@@ -64,14 +65,30 @@ def make_gir(rng, names):
             out.append('<function name="%s" c:identifier="t_%s"><return-value transfer-ownership="none">'
                        '<type name="none" c:type="void"/></return-value></function>' % (nm, nm))
             entries.append((nm, None, None))
+    # cross-references: parameters whose types live in the included namespace D give non-local directory
+    # entries; their names must never be found as entries of this namespace
+    xrefs = [x for x in XREFS if x not in set(names)][:rng.randint(0, len(XREFS))]
+    for j, x in enumerate(xrefs):
+        out.append('<function name="xr_fn_%d" c:identifier="t_xr_fn_%d"><return-value transfer-ownership="none">'
+                   '<type name="none" c:type="void"/></return-value><parameters><parameter name="p" transfer-ownership="none">'
+                   '<type name="D.%s" c:type="D%s*"/></parameter></parameters></function>' % (j, j, x, x))
+        entries.append(('xr_fn_%d' % j, None, None))
     out.append('</namespace></repository>\n')
-    return '\n'.join(out), entries
+    return '\n'.join(out), entries, xrefs
 
 
-def gen_probes(rng, entries, n_abs):
+XREFS = ['Object', 'Error', 'InitiallyUnowned', 'Zz9', 'a', 'Window']
+DEP_GIR = ('<?xml version="1.0"?>\n<repository version="1.2" xmlns="http://www.gtk.org/introspection/core/1.0" '
+           'xmlns:c="http://www.gtk.org/introspection/c/1.0" xmlns:glib="http://www.gtk.org/introspection/glib/1.0">\n'
+           '<namespace name="D" version="1.0" shared-library="" c:identifier-prefixes="D" c:symbol-prefixes="d">\n'
+           + ''.join('<record name="%s" c:type="D%s"/>\n' % (x, x) for x in XREFS) + '</namespace></repository>\n')
+
+
+def gen_probes(rng, entries, n_abs, xrefs=()):
     names = [e[0] for e in entries]
     nameset = set(names)
-    probes = [('N', n) for n in names]
+    probes = [('N', n) for n in names] + [('L', n) for n in names[:40]]
+    probes += [('N', x) for x in xrefs if x not in nameset] + [('L', x) for x in xrefs if x not in nameset]
     gts = [e[1] for e in entries if e[1]]
     doms = [e[2] for e in entries if e[2]]
     probes += [('G', g) for g in gts] + [('T', g) for g in gts[:50]] + [('E', d) for d in doms]
@@ -91,15 +108,16 @@ def run_find(exe, typelib, probes, noindex, tmp):
     open(pf, 'w').write(''.join('%s %s\n' % p for p in probes))
     args = [exe, typelib, pf] + (['noindex'] if noindex else [])
     p = subprocess.run(args, capture_output=True, text=True, timeout=600)
+    err = None
     if p.returncode != 0:
-        return None, None, 'find_driver rc=%d %s %s' % (p.returncode, p.stdout[-300:], p.stderr[-300:])
+        err = 'find_driver rc=%d %s %s' % (p.returncode, p.stdout[-300:], p.stderr[-300:])
     dirnames, res = [], []
     for l in p.stdout.splitlines():
         if l.startswith('D '):
             dirnames.append(l.split(' ', 2)[2])
         else:
             res.append(None if l[2:] == '-' else l[2:])
-    return dirnames, res, None
+    return dirnames, res, err
 
 
 def main(tier, seed):
@@ -158,21 +176,34 @@ def main(tier, seed):
         # ---- repository level
         for n in sizes + big:
             names = gen_names(rng, n)
-            xml, entries = make_gir(rng, names)
+            xml, entries, xrefs = make_gir(rng, names)
+            names = [e[0] for e in entries]
+            open(os.path.join(tmp, 'D-1.0.gir'), 'w').write(DEP_GIR)
+            if not os.path.exists(os.path.join(tmp, 'D-1.0.typelib')):
+                rc, out = run([os.path.join(CBUILD, 'g-ir-compiler'), os.path.join(tmp, 'D-1.0.gir'), '-o', os.path.join(tmp, 'D-1.0.typelib')])
+                if rc != 0:
+                    ck.tie_broken('harness', 'cannot compile the dependency namespace: ' + out[-500:])
             gir = os.path.join(tmp, 'T-1.0.gir')
             tl = os.path.join(tmp, 'T-1.0.typelib')
             open(gir, 'w').write(xml)
-            rc, out = run([os.path.join(CBUILD, 'g-ir-compiler'), gir, '-o', tl], timeout=900)
+            rc, out = run([os.path.join(CBUILD, 'g-ir-compiler'), '--includedir', tmp, gir, '-o', tl], timeout=900)
             if rc != 0:
                 ck.failing_input('g-ir-compiler cannot build the directory index for a namespace of %d entries' % n,
                                  dict(n_entries=n), detail=out[-600:], fid='C14-F7' if n >= 30000 else None)
                 continue
-            probes = gen_probes(rng, entries, min(n, 300) + 20)
+            probes = gen_probes(rng, entries, min(n, 300) + 20, xrefs)
             d1, r1, e1 = run_find(exe_f, tl, probes, False, tmp)
             d2, r2, e2 = run_find(exe_f, tl, probes, True, tmp)
             if e1 or e2:
-                ck.tie_broken('correspondence', 'find_driver failed: %s' % (e1 or e2))
-                continue
+                # the lookups answered before the driver died are still judged below; the probe it died on is the input
+                for path, rr, ee in (('index', r1, e1), ('linear', r2, e2)):
+                    if ee and d1 and len(rr) < len(probes):
+                        ck.failing_input('the repository aborts on a lookup (%s path): %s' % (path, ee[-200:]),
+                                         dict(n_entries=n, probe=list(probes[len(rr)]), names=names if n <= 300 else names[:20], xrefs=xrefs))
+                    elif ee:
+                        ck.tie_broken('correspondence', 'find_driver failed: %s' % ee)
+                if not d1:
+                    continue
             by_name = {e[0]: e for e in entries}
             dirs = [by_name[x] for x in d1]
             nameset = set(by_name)
@@ -186,7 +217,7 @@ def main(tier, seed):
                     dmap[e[2]] = e[0]
             # the property, judged directly on the answers
             for (k, a), x, y in zip(probes, r1, r2):
-                want = a if (k == 'N' and a in nameset) else gmap.get(a) if k in 'GT' else dmap.get(a) if k == 'E' else None
+                want = a if (k in 'NL' and a in nameset) else gmap.get(a) if k in 'GT' else dmap.get(a) if k == 'E' else None
                 for path, got in (('index', x), ('linear', y)):
                     if got != want:
                         ck.failing_input('lookup by %s returned %r, expected %r (%s path)' % (k, got, want, path),
@@ -204,7 +235,7 @@ def main(tier, seed):
             ds = clist(['mk %s %s %s' % (cstr(e[0]), copt(e[1], cstr), copt(e[2], cstr)) for e in dirs])
             ps = []
             for (k, a), x, y in zip(probes, r1, r2):
-                kind = {'N': 0, 'G': 1, 'T': 1, 'E': 2}[k]
+                kind = {'N': 0, 'L': 0, 'G': 1, 'T': 1, 'E': 2}[k]
                 ps.append('{| p_kind := %d; p_arg := %s; p_obs_index := %s; p_obs_linear := %s |}'
                           % (kind, cstr(a), copt(x, cstr), copt(y, cstr)))
             items.append('{| t_id := %d; t_dirs := %s; t_probes := %s |}' % (i, ds, clist(ps)))
